@@ -4,7 +4,7 @@ import numpy as np
 from core import Result
 import proto, gen, implutil
 
-THEOREMS = ['C10_cyclepoints', 'C10_argext', 'C10_midpoints', 'C10_shape', 'C10_burst_features', 'C10_ratio', 'C10_period_consistency', 'C10_rate']
+THEOREMS = ['C10_cyclepoints', 'C10_argext', 'C10_midpoints', 'C10_shape', 'C10_burst_features', 'C10_ratio', 'C10_period_consistency', 'C10_rate', 'C10_amplitude']
 RULE = ("generated signals of all families x option sets of C01 x both burst methods x both centrings; (a) amplitude: compute_features(a*x) against compute_features(x) for "
         "a = 2^k, k in [-40, 40] (exact in float64): every sample index, duration, symmetry, consistency, monotonicity, amplitude fraction, burst fraction and label equal, "
         "every voltage feature and band_amp multiplied by a exactly; (b) rate: compute_features(x, c*fs, c*f_range) against compute_features(x, fs, f_range) for c = 2^k, "
